@@ -38,6 +38,16 @@ MUTANTS = [
     ("C16", "seeded C16h-1: tuple form for binary formats with two parts exchanged", "@patch", "/verif/seeded/C16h-1/patch.diff", None),
     ("C16", "seeded C16h-2: keys accepted only as borrowed strings", "@patch", "/verif/seeded/C16h-2/patch.diff", None),
     ("C16", "seeded C16h-3: map entries assigned by position", "@patch", "/verif/seeded/C16h-3/patch.diff", None),
+    ("C16", "seeded C16i-4: error of the last part dropped by a builder", "@patch", "/verif/seeded/C16i-4/patch.diff", None),
+    ("C16", "seeded C16i-5: wrong fields hint", "@patch", "/verif/seeded/C16i-5/patch.diff", None),
+    ("C16", "seeded C16i-6: prefix-matching keys", "@patch", "/verif/seeded/C16i-6/patch.diff", None),
+    # ---- round 6 changes that were missed at first try (kept here so that the corrections stay in place) ----------
+    ("C17", "seeded C17h-1: argument list kept in a static and refilled in place", "@patch", "/verif/seeded/C17h-1/patch.diff", None),
+    ("C17", "seeded C17i-1: in-place operators that mutate the object", "@patch", "/verif/seeded/C17i-1/patch.diff", None),
+    ("C17", "seeded C17i-2: x ** (1/3) routed to cbrt", "@patch", "/verif/seeded/C17i-2/patch.diff", None),
+    ("C18", "seeded C18h-2: dirty thread-local buffer after a failed rendering (history-dependent)", "@patch", "/verif/seeded/C18h-2/patch.diff", None),
+    ("C18", "seeded C18i-1: chunks_exact(8) drops trailing entries", "@patch", "/verif/seeded/C18i-1/patch.diff", None),
+    ("C18", "seeded C18i-2: all-zero matrix part rendered as absent", "@patch", "/verif/seeded/C18i-2/patch.diff", None),
     # ---- C17: conformance (fault-free) ---------------------------------------------------------------------
     ("C17", "arcsin forwards to asinh", "src/python_macro.rs", "self.0.asin().into()", "self.0.asinh().into()"),
     ("C17", "reflected subtraction with swapped operands", "src/python_macro.rs", "(-self.0.clone() + lhs).into()", "(self.0.clone() - lhs).into()"),
@@ -72,6 +82,9 @@ CONTROLS = [
     # independent property-preserving changes (seeded/keep-*): streamed / inline-matrix rendering, buffered single write,
     # parentheses around nested parts, brackets for one-element parts; refactored operators, single conversion of driver
     # inputs with other exception types, lenient callback results, fixed-size dispatch only up to 6
+    ("C16", "keep-C16p1", "@patch", "/verif/seeded/keep-C16p1/patch.diff", None),
+    ("C16", "keep-C16p2", "@patch", "/verif/seeded/keep-C16p2/patch.diff", None),
+    ("C16", "keep-C16p3", "@patch", "/verif/seeded/keep-C16p3/patch.diff", None),
     ("C18", "keep-C18p-1", "@patch", "/verif/seeded/keep-C18p-1/patch.diff", None),
     ("C18", "keep-C18p-2", "@patch", "/verif/seeded/keep-C18p-2/patch.diff", None),
     ("C18", "keep-C18p-3", "@patch", "/verif/seeded/keep-C18p-3/patch.diff", None),
@@ -123,7 +136,7 @@ def main():
                 line = next((l for l in r.stdout.splitlines() if l.startswith(("violation class", "conformance mismatch"))), "")
                 good = r.returncode == 1 and "VIOLATION property=" + prop in r.stdout
                 ok &= good
-                print(f"{'ok  ' if good else 'MISS'} {prop} {name}: exit {r.returncode}  {line[:150]}")
+                print(f"{'ok  ' if good else 'MISS'} {prop} {name}: exit {r.returncode}  {line[:150]}", flush=True)
                 continue
             src = open(full, encoding="utf-8").read()
             if src.count(old) != 1:
